@@ -80,6 +80,20 @@ class World:
             else:
                 self.studies.append(optuna.load_study(storage=st, study_name=f"c19-{tag}", sampler=optuna.samplers.RandomSampler(seed=w + 1)))
 
+    GRACE = 600
+
+    @staticmethod
+    def dead_age(rng) -> float:
+        """An age (s) strictly older than the grace period: just over it, hours, and whole days plus a remainder below the grace period."""
+        d = rng.randint(1, 40)
+        return rng.choice([World.GRACE + rng.randint(2, 120), 100000.0, rng.uniform(World.GRACE + 2, 86000), 86400 * d + rng.randint(0, World.GRACE),
+                           86400 * d + rng.randint(0, 86399), 3.0e7 + rng.randint(0, 86399)])
+
+    @staticmethod
+    def alive_age(rng) -> float:
+        """A fresh heartbeat: well inside the grace period, or 1-2 s AFTER the sweeper's clock reading (owner beat while the sweep ran)."""
+        return rng.choice([0.0, 0.0, rng.uniform(0, World.GRACE / 2), -1.0, -2.0])
+
     def backdate(self, trial_id: int, secs: float = 100000.0) -> None:
         import sqlalchemy
 
@@ -105,10 +119,13 @@ class World:
             raw.record_heartbeat(t._trial_id)
         if kind == "alive":
             raw.record_heartbeat(t._trial_id)      # the refresh path (second beat)
+            age = self.alive_age(rng)
+            if age != 0.0:
+                self.backdate(t._trial_id, age)
         if kind == "dead":
             if rng.random() < 0.5:
                 raw.record_heartbeat(t._trial_id)
-            self.backdate(t._trial_id)
+            self.backdate(t._trial_id, self.dead_age(rng))
         if kind == "finished":
             study.tell(t, 1.0)
             self.backdate(t._trial_id)
@@ -241,7 +258,7 @@ def sequential_round(ctx: Ctx, rng, idx: int) -> None:
                     tr = w.studies[rng.randrange(nW)].ask()
                     tr.suggest_float("x", 0, 1)
                     w.raws[0].record_heartbeat(tr._trial_id)
-                    w.backdate(tr._trial_id)
+                    w.backdate(tr._trial_id, w.dead_age(rng))
                     new_dead.append(tr.number)
             dead = new_dead
             all_dead += new_dead
